@@ -995,6 +995,12 @@ pub fn run(ctx: &mut Ctx) {
                         "attr-unspecified-requirement".to_string()
                     } else if mshape.iter().any(|d| d.pat.contains('B')) {
                         "icase-uppercase-in-bracket-or-escape".to_string()
+                    } else if minimal.iter().any(|s| {
+                        let t = s.text.strip_suffix(b"/").unwrap_or(&s.text);
+                        t.ends_with(b"/..") || t.ends_with(b"/.")
+                    }) {
+                        // git's normalisation of `x/y/..` leaves `x/`, which only matches a directory and what is below it
+                        "trailing-dot-component-means-directory".to_string()
                     } else {
                         format!("generic:{}:{}", cwd_tag, desc_text(&mshape))
                     };
